@@ -315,6 +315,10 @@ where
 #[derive(Debug, Default)]
 pub struct DownlinkOperationDecoder;
 
+/// The most buffer space that is reserved ahead of time on the strength of a length read from the
+/// wire (a corrupt length must not cause an enormous allocation).
+const MAX_RESERVE: usize = 1 << 16;
+
 impl Decoder for DownlinkOperationDecoder {
     type Item = DownlinkOperation<Bytes>;
 
@@ -328,7 +332,8 @@ impl Decoder for DownlinkOperationDecoder {
                 let body = src.split_to(len).freeze();
                 Ok(Some(DownlinkOperation { body }))
             } else {
-                src.reserve(LEN_SIZE.saturating_add(len));
+                // The length comes from the wire: space is reserved ahead of time only up to a limit.
+                src.reserve(LEN_SIZE.saturating_add(len).min(MAX_RESERVE));
                 Ok(None)
             }
         } else {
